@@ -42,6 +42,7 @@ package deb
 //@   modifies [C11 C12] &info.Arch, &info.Contents, &info.Priority, &info.Maintainer
 //
 //@ import "archive/tar"
+//@ import "fmt"
 //@ import "time"
 //@ import "bytes"
 //
@@ -61,6 +62,31 @@ package deb
 //@     return foldStr(n, func(i int) string { return debItem(cs[i], pkgMTime) })
 //@ }
 //
+//@ spec func md5Line(c *files.Content) string {
+//@     switch c.Type {
+//@     case "ghost", "dir", "implicit dir", "symlink":
+//@         return ""
+//@     }
+//@     m := md5.Sum([]byte(fsContent(c.Source)))
+//@     return fmt.Sprintf("%x  %s\n", m[:], files.AsExplicitRelativePath(c.Destination))
+//@ }
+//
+//@ spec func md5Lines(cs files.Contents, n int) string {
+//@     return foldStr(n, func(i int) string { return md5Line(cs[i]) })
+//@ }
+//
+//@ spec func regularSize(c *files.Content) int64 {
+//@     switch c.Type {
+//@     case "ghost", "dir", "implicit dir", "symlink":
+//@         return 0
+//@     }
+//@     return c.FileInfo.Size
+//@ }
+//
+//@ spec func regularSizes(cs files.Contents, n int) int64 {
+//@     return foldInt(n, func(i int) int64 { return regularSize(cs[i]) })
+//@ }
+//
 //@ spec func debEntryOK(c *files.Content) bool {
 //@     if c.Type == "debian changelog" { return false }
 //@     if c.Type == "dir" || c.Type == "implicit dir" { return c.FileInfo.Mode < 1<<18 || (1<<31 <= c.FileInfo.Mode && c.FileInfo.Mode < 1<<31 + 1<<18) }
@@ -78,7 +104,11 @@ package deb
 //@   requires [C01] debEntriesOK(info.Contents)
 //@   requires !ghostFlag("failed") && !ghostFlag("clockRead") && !ghostFlag("envRead")
 //@   ensures [C01] payload-is-exactly-the-plan: implies(err == nil, ghostStr(tw, "tarManifest") == old(ghostStr(tw, "tarManifest")) + debPayload(info.Contents, info.MTime, len(info.Contents)))
-//@   loop 0 (iter int)
+//@   ensures [C03] md5sums-has-one-line-per-regular-file: implies(err == nil, md5buf.String() == md5Lines(info.Contents, len(info.Contents)))
+//@   ensures [C03] installed-size-is-the-sum-of-the-regular-files: implies(err == nil, instSize == regularSizes(info.Contents, len(info.Contents)))
+//@   loop 0 (iter int, md5buf bytes.Buffer, instSize int64)
+//@     invariant [C03] md5-lines-so-far: inlined() || md5buf.String() == md5Lines(info.Contents, iter)
+//@     invariant [C03] size-so-far: inlined() || instSize == regularSizes(info.Contents, iter)
 //@     invariant [C01] payload-so-far: inlined() || ghostStr(tw, "tarManifest") == old(ghostStr(tw, "tarManifest")) + debPayload(info.Contents, info.MTime, iter)
 //@     invariant [C01] between-entries: inlined() || (ghostInt(tw, "tarRemaining") == 0 && !ghostBool(tw, "tarClosed") && ghostAny(tw, "werr") == nil)
 //@     invariant [C01] index-in-range: 0 <= iter && iter <= len(info.Contents)
